@@ -18,7 +18,7 @@ EVIDENCE = os.path.join(VERIF, "evidence")
 REPLAYS = os.path.join(VERIF, "replays")
 DRIVER = os.path.join(LEAN_DIR, ".lake", "build", "bin", "driver")
 VH = os.environ.get("VERIF_VH") or os.path.join(HARNESS_DIR, "target", "release", "vh")   # VERIF_VH: an instrumented build (tools/coverage.sh)
-REPO_TARGET = os.path.join(CACHE, "repo-target")
+REPO_TARGET = os.environ.get("VERIF_REPO_TARGET") or os.path.join(CACHE, "repo-target")   # VERIF_REPO_TARGET: instrumented binaries (tools/coverage.sh cli)
 GUARD = "crustabri_verif"
 ALLOWED_AXIOMS = {"propext", "Classical.choice", "Quot.sound"}
 TRUSTED_BASE = [
@@ -86,6 +86,8 @@ def harness_build(log=None):
 
 
 def repo_bins_build():
+    if os.environ.get("VERIF_REPO_TARGET"):
+        return 0, "prebuilt"
     env = env_offline()
     flags = env.get("RUSTFLAGS", "")
     if ("--cfg " + GUARD) not in flags:
